@@ -481,6 +481,8 @@ pub fn run(ctx: &mut Ctx) {
     ctx.run_cases("exhaustive_extreme_triples", triples, oracle);
     let n = ctx.tier.pick(400_000u32, 8_000_000);
     ctx.run_prop("generated", n, strategy, oracle);
+    // coverage-guided search over the same strategies and oracles (thorough tier; see ptfuzz.rs)
+    crate::ptfuzz::thorough(ctx, &[("c15", 16, 1_000_000)]);
 }
 
 pub fn replay(ctx: &mut Ctx, sub: &str, case: &Value) {
